@@ -163,6 +163,13 @@ def family(t, sd):
                     break
     items += [{'model': m['model']} for m in ms]
     items += [{'model': m['model']} for m in gen.diverging_family()]
+    # prefix operators applied to prefix operators in the compiled model (the grammar takes one prefix per operand)
+    P, Q = gen.var('p'), gen.var('q')
+    bd = {'p': gen.D('Boolean'), 'q': gen.D('Boolean'), 'x': gen.D('Real', -2, 3)}
+    for e in (['not', ['not', P]], ['or', [['not', ['not', P]], Q]], ['not', ['not', ['and', [P, Q]]]], ['and', [['not', ['not', P]], ['not', Q]]], ['implies', ['not', ['not', P]], Q]):
+        items.append({'model': gen.mk_model('max', ['+', P, Q], [{'assert': e}], dict(bd))})
+    for e in (['neg', ['neg', gen.var('x')]], ['-', gen.var('x'), ['neg', ['neg', gen.var('x')]]], ['neg', ['abs', ['neg', gen.var('x')]]]):
+        items.append({'model': gen.mk_model('min', e, [gen.row(gen.var('x'), '>=', gen.num(-1))], dict(bd))})
     nf = gen.nested_family()
     items += [{'model': m['model']} for m in nf[::(5 if t == 'quick' else 1)]]
     big = [1e-9, 1e9, -1e-9, 123456.789, 0.1, 1 / 3, -2.5e-7, 7e-5, 1e-5, -1e5]
